@@ -60,7 +60,7 @@ m = {
    "kind_free_text": "deterministic discrete-event simulator: real wtransport+quinn+rustls on a paused-clock current-thread tokio runtime over an in-memory UDP seam, seeded fault schedules, raw scripted peer with independent reference codec, plan minimisation and replay files",
  }],
  "checks": checks,
- "notes": "All checks: exit 0 = held on everything explored; exit 1 + 'VIOLATION property=<id> replay=<path>'; exit 2 = harness error. VERIF_SEED selects the base seed (default 20260922). known_findings.json lists recorded defects; 'fixed:' entries there suppress nothing.",
+ "notes": "All checks: exit 0 = held on everything explored; exit 1 + 'VIOLATION property=<id> replay=<path>'; exit 2 = harness error and no violation (a violation is only reported when its replay file reproduced in a fresh process; when one did, the exit code is 1 even if the batch also had a harness-level problem). VERIF_SEED selects the base seed (default 20260922). known_findings.json lists recorded defects; 'fixed:' entries there suppress nothing.",
  "not_applicable": [{"property_id": p, "reason": r} for p, r in NA if p not in CHECKS],
 }
 json.dump(m, open('/verif/MANIFEST.json', 'w'), indent=1)
